@@ -509,10 +509,7 @@ def info_cases(res, rng, count):
                 diff = [a[0] for a, b in zip(ref, got) if a != b] or ['outcome']
                 finding = None
                 if vname == 'build_from_info':
-                    for fl in ('knots', 'hidden'):
-                        if fl in flags:
-                            finding = FINDINGS[fl]
-                            break
+                    finding = rebuilt_finding(flags, diff)
                 res.violations.append(dict(
                     what='%s of a term does not reproduce its %s' % (vname, '/'.join(diff)), finding=finding,
                     input=dict(specs=specs, history=hist, term_index=k, info=repr(info), flags=sorted(flags)),
@@ -536,13 +533,219 @@ def info_cases(res, rng, count):
             if got != ref:
                 finding = None
                 if vname == 'build_from_info':
-                    for fl in ('knots', 'hidden'):
-                        if fl in flags:
-                            finding = FINDINGS[fl]
-                            break
+                    finding = rebuilt_finding(flags, [a[0] for a, b in zip(ref, got) if a != b] or ['outcome'])
                 res.violations.append(dict(what='%s of a term list does not reproduce its columns/penalties/constraints' % vname,
                                            finding=finding, input=dict(specs=specs, history=hist, flags=sorted(flags)),
                                            observed='different', expected='identical'))
+    return cases, meta
+
+
+def rebuilt_finding(flags, diff):
+    """which listed defect explains that an object rebuilt from info behaves differently: hidden factor attributes can change
+    anything; dropped edge knots only the columns (penalties and constraints do not depend on knots)"""
+    if 'hidden' in flags:
+        return FINDINGS['hidden']
+    if 'knots' in flags and set(diff) <= {'columns'}:
+        return FINDINGS['knots']
+    return None
+
+
+# ----------------------------------------------------------------------------- uses interleaved with assignments
+def fresh_like(t):
+    """a NEW object constructed directly with the settings t has now (nothing was ever built from it)"""
+    from pygam.terms import Intercept, LinearTerm, SplineTerm, FactorTerm, TensorTerm
+    if t.isintercept:
+        return Intercept(verbose=t.verbose)
+    if t.istensor:
+        return TensorTerm(*[fresh_like(m) for m in t._terms], by=t.by, verbose=t.verbose)
+    if isinstance(t, LinearTerm):
+        r = LinearTerm(t.feature, lam=list(t.lam), penalties=list(t.penalties), verbose=t.verbose)
+        hidden = ('dtype', 'constraints')
+    elif isinstance(t, FactorTerm):
+        r = FactorTerm(t.feature, lam=list(t.lam), penalties=list(t.penalties), coding=t.coding, verbose=t.verbose)
+        hidden = ('dtype', 'spline_order', 'by', 'n_splines', 'basis', 'constraints')
+    else:
+        ek = [float(x) for x in np.asarray(t.edge_knots_).ravel()] if hasattr(t, 'edge_knots_') else None
+        r = SplineTerm(t.feature, n_splines=t.n_splines, spline_order=t.spline_order, lam=list(t.lam),
+                       penalties=list(t.penalties), constraints=list(t.constraints), dtype=t.dtype, basis=t.basis, by=t.by,
+                       edge_knots=ek, verbose=t.verbose)
+        hidden = ()
+    for h in hidden:          # attributes the constructor does not take
+        setattr(r, h, copy.deepcopy(getattr(t, h)))
+    return r
+
+
+def assemble(terms):
+    """a TermList holding exactly these term objects (no de-duplication: assignments can make two terms equal)"""
+    from pygam.terms import TermList
+    tl = TermList()
+    tl._terms = list(terms)
+    return tl
+
+
+def simple_terms_of(tl):
+    out = []
+    for t in tl._terms:
+        if t.isintercept:
+            continue
+        out += list(t._terms) if t.istensor else [t]
+    return out
+
+
+def random_assignment(rng, tl, nf, factor_feats, owner=None):
+    """one hyper-parameter assignment on the term list / one of its terms / the model that owns it.
+    Returns (description, callable)."""
+    from pygam.terms import SplineTerm, FactorTerm, LinearTerm
+    target = owner if owner is not None else tl
+    r = rng.random()
+    if r < 0.5:
+        name = rng.choice(['penalties', 'penalties', 'lam', 'constraints', 'basis', 'dtype', 'n_splines', 'spline_order'])
+        size = len(flat(getattr(tl, name)))
+        v, _ = gen_value(rng, name, size, bad=0.0)
+        if isinstance(v, list) and len(flat(v)) != size:
+            v = (flat(v)[:1] or [None])[0]
+        if name == 'n_splines':
+            v = 9 if not isinstance(v, list) else v
+        via = rng.choice(['setattr', 'set_params'])
+        who = 'model' if owner is not None else 'termlist'
+        if via == 'setattr':
+            return dict(on=who, via=via, name=name, value=v), (lambda: setattr(target, name, copy.deepcopy(v)))
+        return dict(on=who, via=via, name=name, value=v), (lambda: target.set_params(**{name: copy.deepcopy(v)}))
+    simples = simple_terms_of(tl)
+    tensors = [t for t in tl._terms if t.istensor]
+    if tensors and r < 0.56:
+        t = rng.choice(tensors)
+        rest = [j for j in range(nf) if j not in [m.feature for m in t._terms] and j not in factor_feats]
+        v = rng.choice(rest + [None]) if rest else None
+        return dict(on='tensor term', via='setattr', name='by', value=v, term=repr(t)), (lambda: setattr(t, 'by', v))
+    if not simples:
+        return dict(on='nothing'), (lambda: None)
+    t = rng.choice(simples)
+    names = ['penalties', 'penalties', 'lam']
+    if isinstance(t, SplineTerm) and not isinstance(t, FactorTerm):
+        names += ['constraints', 'basis', 'dtype', 'n_splines', 'spline_order', 'by']
+    name = rng.choice(names)
+    if name == 'penalties':
+        v = [rng.choice(gen_terms.PEN_NAMES) for _ in t.penalties]
+    elif name == 'lam':
+        v = [rng.choice([rng.randint(0, 9), gen_terms.dyadic_lam(rng)]) for _ in t.lam]
+    elif name == 'constraints':
+        v = [rng.choice(gen_terms.CON_NAMES) for _ in t.constraints]
+    elif name == 'basis':
+        v = rng.choice(['ps', 'cp'])
+    elif name == 'dtype':
+        v = rng.choice(['numerical', 'categorical'])
+    elif name == 'n_splines':
+        v = rng.randint(max(5, t.spline_order + 1), 11)
+    elif name == 'spline_order':
+        v = rng.randint(0, min(3, t.n_splines - 1))
+    else:
+        rest = [j for j in range(nf) if j != t.feature and j not in factor_feats]
+        v = rng.choice(rest + [None]) if rest else None
+    via = rng.choice(['setattr', 'set_params'])
+    d = dict(on='term', via=via, name=name, value=v, term=repr(t))
+    if via == 'setattr':
+        return d, (lambda: setattr(t, name, copy.deepcopy(v)))
+    return d, (lambda: t.set_params(**{name: copy.deepcopy(v)}))
+
+
+def use_assign_cases(res, rng, count):
+    """USE (compile, build_columns / build_penalties / build_constraints, fit) -- ASSIGN -- USE ...: after every accepted
+    assignment the object must behave, bitwise, like (a) fresh objects constructed with its current settings, (b) the terms rebuilt
+    from their current info, (c) its deep copy and its pickle; and its penalty must be the model's penalty_now of its state."""
+    from pygam import LinearGAM
+    from pygam.terms import Term, TermList
+    cases, meta = [], []
+    for i in range(count):
+        nf = rng.randint(1, 4)
+        factor_feats = tuple(j for j in range(nf) if rng.random() < 0.3)
+        specs = gen_terms.gen_termlist(rng, nf, factor_feats, dyadic=True, max_terms=3, allow_constraints=True, max_n=8,
+                                       intercept=False)
+        try:
+            tl = gen_terms.build_termlist(specs)
+        except Exception:
+            continue
+        X = gen_terms.gen_X(rng, 24, nf, factor_feats, scale=1.0)
+        Xq = X[rng.sample(range(24), 6)] * 1.0
+        coef_seed = rng.randrange(1 << 30)
+        model_mode = rng.random() < 0.4
+        hist = []
+        owner = None
+        if model_mode:
+            y = np.random.RandomState(rng.randrange(1 << 30)).randn(24)
+            owner = LinearGAM(tl, fit_intercept=rng.random() < 0.7)
+            try:
+                owner.fit(X, y)
+                hist.append('model = LinearGAM(terms).fit(X, y)')
+            except Exception as e:
+                res.count('use_assign_fit_raised:%s' % type(e).__name__)
+                continue
+            tl = owner.terms
+        first = behaviour(tl, X, Xq, coef_seed)          # first USE, on the object itself
+        hist.append('compile(X); build_columns / build_penalties / build_constraints')
+        if any(part[1] == 'EXC' or part[0] == 'compile' for part in first):
+            res.count('use_assign_first_use_raised')
+            continue
+        for rnd in range(rng.randint(1, 4)):
+            desc, do = random_assignment(rng, tl, nf, factor_feats, owner)
+            try:
+                do()
+                if desc.get('via') == 'setattr' and desc.get('on') in ('term', 'tensor term'):
+                    pass          # plain attribute assignment of a well-formed value: no validation needed
+            except Exception as e:
+                hist.append(dict(desc, raised=type(e).__name__))
+                res.count('use_assign_assignment_raised:%s' % type(e).__name__)
+                break
+            hist.append(desc)
+            res.count('use_assign:%s/%s/%s' % (desc.get('on'), desc.get('via'), desc.get('name')))
+            if owner is not None and rng.random() < 0.4:
+                try:
+                    owner.fit(X, y)          # a refit is a use, too
+                    hist.append('model.fit(X, y)')
+                    tl = owner.terms
+                except Exception as e:
+                    res.count('use_assign_refit_raised:%s' % type(e).__name__)
+                    break
+            ref = behaviour(tl, X, Xq, coef_seed)      # USE after the assignment, on the object itself
+            if ref and ref[0][0] == 'compile':
+                break
+            flags = set()
+            for t in tl._terms:
+                flags |= term_flags(t)
+            if len({str(sorted(t.info.items())) for t in tl._terms}) < len(tl._terms):
+                res.count('use_assign_terms_became_equal')
+            variants = [('fresh objects constructed with the current settings', lambda: assemble([fresh_like(t) for t in tl._terms])),
+                        ('deepcopy', lambda: copy.deepcopy(tl)),
+                        ('pickle', lambda: pickle.loads(pickle.dumps(tl))),
+                        ('terms rebuilt from their current info', lambda: assemble([Term.build_from_info(t.info) for t in tl._terms])),
+                        ('terms rebuilt from their pickled info',
+                         lambda: assemble([Term.build_from_info(pickle.loads(pickle.dumps(t.info))) for t in tl._terms]))]
+            for vname, mk in variants:
+                try:
+                    got = behaviour(mk(), X, Xq, coef_seed)
+                except Exception as e:
+                    got = [('raised', type(e).__name__)]
+                res.case(('use-assign', i, rnd, vname), nontrivial=True,
+                         sample=dict(stage='use/assign', history=hist[-2:], variant=vname) if (i, rnd, vname) == (2, 0, 'deepcopy') else None)
+                if got == ref:
+                    continue
+                diff = [a[0] for a, b in zip(ref, got) if a != b] or ['outcome']
+                finding = rebuilt_finding(flags, diff) if vname.startswith('terms rebuilt') else None
+                res.violations.append(dict(
+                    what='after use / assignment / use, the %s of the object differ from %s' % ('/'.join(diff), vname),
+                    finding=finding, input=dict(specs=specs, model_level=model_mode, history=list(hist), flags=sorted(flags)),
+                    observed='different ' + '/'.join(diff), expected='bitwise identical columns, penalties and constraints'))
+            # the model's penalty of the current state
+            pen = [part for part in ref if part[0] == 'penalties']
+            if pen and pen[0][1] != 'EXC' and pen[0][1][0] <= 70:
+                try:
+                    ts = coq_list([term_coq(t) for t in tl._terms])
+                except ValueError:
+                    continue
+                M = np.frombuffer(pen[0][2], dtype=float).reshape(pen[0][1])
+                cases.append('(CPenalty %s (1#1000000000000) %s)' % (
+                    ts, coq_list([coq_list([common.dylit(x) for x in row]) for row in M])))
+                meta.append(dict(kind='penalty', specs=specs, model_level=model_mode, history=list(hist)))
     return cases, meta
 
 
@@ -779,16 +982,22 @@ def run(res):
                 '(custom knots, tensor terms with a by-variable, plural assignment reaching hidden attributes, earlier compile) compared with the model and, '
                 'behaviourally (bitwise equal build_columns / build_penalties / build_constraints on random data), original vs '
                 'rebuilt vs deepcopy vs pickle; (d) set_params accept/ignore decisions vs the model; (e) the property statement '
-                'probed directly (object identity for order/de-duplication, read back as set, in order, wrong length rejected). '
+                'probed directly (object identity for order/de-duplication, read back as set, in order, wrong length rejected); '
+                '(f) USES (compile, build_columns/penalties/constraints, fit) interleaved with ASSIGNMENTS (plural setters and set_params on '
+                'term lists and fitted models, attribute assignment / set_params of penalties, lam, constraints, basis, dtype, n_splines, '
+                'spline_order, by on single terms): after every accepted assignment the object is compared bitwise with fresh objects '
+                'constructed with its current settings, with its terms rebuilt from their (pickled) info, with its deep copy and pickle, '
+                'and its penalty matrix with the Coq penalty_now of its current state. '
                 'A case is distinct by its seed-derived program; non-trivial when it has >= 2 non-intercept terms or a duplicate.')
     common.standard_prove(res, PROPS_FILE)
-    n = (160, 120, 110, 220, 200) if quick else (1600, 1200, 900, 2000, 2000)
+    n = (160, 120, 110, 220, 200, 140) if quick else (1600, 1200, 900, 2000, 2000, 1400)
     c1, m1 = prog_cases(res, rng, n[0])
     c2, m2 = gam_cases(res, rng, n[1])
     c3, m3 = info_cases(res, rng, n[2])
     c4, m4 = accept_cases(res, rng, n[3])
     direct_probes(res, rng, n[4])
-    cases, meta = c1 + c2 + c3 + c4, m1 + m2 + m3 + m4
+    c5, m5 = use_assign_cases(res, common.rng_for(res.seed, PROP, 'use-assign'), n[5])
+    cases, meta = c1 + c2 + c3 + c4 + c5, m1 + m2 + m3 + m4 + m5
     with common.CaseDir(PROP) as cd:
         failing, errors = common.run_bool_cases(cd, HEADER, cases, 'check_case', shard=60)
     for name, out in errors:
@@ -796,7 +1005,8 @@ def run(res):
     for kind, label in (('prog', 'term programs (info, order, plural get/set, exception kinds)'),
                         ('gam', 'model-level plural plumbing and fit-time hand-over'),
                         ('info', 'info / build_from_info and the round-trip guard'),
-                        ('accept', 'get_params keys and set_params accept/ignore')):
+                        ('accept', 'get_params keys and set_params accept/ignore'),
+                        ('penalty', 'build_penalties after interleaved uses and assignments = penalty_now of the current settings')):
         bad = [i for i in failing if meta[i]['kind'] == kind]
         res.obligation('correspondence:C14 %s (model = implementation)' % label, not bad and not errors,
                        detail='failing case indices %s; first: %s' % (bad[:10], repr(meta[bad[0]])[:1500] if bad else ''),
